@@ -20,6 +20,8 @@ import (
 	imap "github.com/emersion/go-imap/v2"
 	"github.com/emersion/go-imap/v2/imapserver"
 	"github.com/emersion/go-sasl"
+	"os"
+	"path/filepath"
 )
 
 // Call is one recorded backend call.
@@ -307,6 +309,7 @@ func (l *logBuf) String() string {
 
 type testServer struct {
 	tlsListener bool
+	sockDir     string
 	srv         *imapserver.Server
 	ln          net.Listener
 	log         *logBuf
@@ -323,6 +326,7 @@ type srvOpts struct {
 	TLSListener  bool        // serve implicit TLS
 	Unauth       bool        // session implements SessionUnauthenticate
 	SASL         bool        // session implements SessionSASL (its own PLAIN mechanism)
+	Unix         bool        // listen on a Unix domain socket instead of TCP loopback
 	Configure    func(s *stubSession)
 	NewSession   func(c *imapserver.Conn) (imapserver.Session, *imapserver.GreetingData, error)
 }
@@ -357,7 +361,16 @@ func startServer(o srvOpts) *testServer {
 		InsecureAuth: o.InsecureAuth,
 		TLSConfig:    o.TLSConfig,
 	})
-	ln, err := net.Listen("tcp", "127.0.0.1:0")
+	network, addr := "tcp", "127.0.0.1:0"
+	if o.Unix {
+		dir, err := os.MkdirTemp("", "verifsock")
+		if err != nil {
+			panic(err)
+		}
+		ts.sockDir = dir
+		network, addr = "unix", filepath.Join(dir, "imap.sock")
+	}
+	ln, err := net.Listen(network, addr)
 	if err != nil {
 		panic(err)
 	}
@@ -370,7 +383,12 @@ func startServer(o srvOpts) *testServer {
 	return ts
 }
 
-func (ts *testServer) Close() { ts.srv.Close() }
+func (ts *testServer) Close() {
+	ts.srv.Close()
+	if ts.sockDir != "" {
+		os.RemoveAll(ts.sockDir)
+	}
+}
 
 func (ts *testServer) lastSession() *stubSession {
 	ts.mu.Lock()
@@ -389,7 +407,7 @@ type rawConn struct {
 }
 
 func (ts *testServer) dial() *rawConn {
-	c, err := net.Dial("tcp", ts.ln.Addr().String())
+	c, err := net.Dial(ts.ln.Addr().Network(), ts.ln.Addr().String())
 	if err != nil {
 		panic(err)
 	}
